@@ -19,6 +19,7 @@ type truncCase struct {
 	Final      msg    `json:"final"`            // the message whose payload is cut at every offset
 	Scenario   string `json:"scenario,omitempty"`
 	Peers      string `json:"peers,omitempty"`
+	Queues     string `json:"queues,omitempty"`
 }
 
 func genTruncCase(g *G) truncCase {
@@ -50,6 +51,12 @@ func genTruncCase(g *G) truncCase {
 			}
 		}
 		tc.Scenario = "full_block_requested"
+		return tc
+	}
+	if cmd == "tx" && g.chance(40) {
+		tc.Queues = "nettxs_full"
+		tc.Final = wf("tx")
+		tc.Scenario = "nettxs_full"
 		return tc
 	}
 	if cmd == "addr" && g.chance(50) {
@@ -100,7 +107,7 @@ func (tc truncCase) asSeq(n int) seqCase {
 		m.Pl = hex.EncodeToString(append(append([]byte{}, full...), 0))
 		m.Kind = "extend"
 	}
-	cs := seqCase{Incoming: true, Handshake: true, Authorized: tc.Authorized, Peers: tc.Peers}
+	cs := seqCase{Incoming: true, Handshake: true, Authorized: tc.Authorized, Peers: tc.Peers, Queues: tc.Queues}
 	cs.Msgs = append(append([]msg{}, tc.Prefix...), m)
 	return cs
 }
